@@ -49,5 +49,6 @@ func (p Pool) Get() *Buffer {
 }
 
 func (p Pool) put(buf *Buffer) {
+	verifPoison(buf)
 	p.p.Put(buf)
 }
